@@ -55,6 +55,63 @@ def run(chk: harness.Check):
     d4_counter(chk, F)
     d5_sections(chk, F)
     d6_intermediate(chk, F)
+    d7_text_nonempty(chk, F)
+
+
+def d7_text_nonempty(chk, F):
+    """No text item is empty: every Item::Text built in in_step is either under the non-empty outcome of an
+    is_empty() test of the string it copies, or copies the Event::Text payload whole — and the step parser emits
+    Event::Text only under the non-empty outcome of an emptiness test of that very text."""
+    from cfgq import call_result_edges
+    EMPTY = ("str>::is_empty", "String::is_empty", "[T]>::is_empty", "Text::is_text_empty", "Vec::<T, A>::is_empty", "Vec::is_empty")
+    def guarded(ff, blk, val_leaves, need_call=None):
+        for b, t in ff.calls():
+            k = callee_key(t) or ""
+            if not any(k.endswith(x) or _sfx(k, x) for x in EMPTY):
+                continue
+            ls = leaves(arg_expr(ff, t, 0))
+            if need_call and not any(l.endswith(need_call) for l in ls):
+                continue
+            if not ({l for l in ls if l.startswith("call:")} <= set(val_leaves) | {"call:" + k}) and not need_call:
+                continue
+            te, fe = call_result_edges(ff, b)
+            if any(ff.edge_dominates(e_, blk) for e_ in fe):
+                return True
+        return False
+    whole = 0
+    sites = aggregates(F, R + "in_step", "model::Item", "Text")
+    chk.floor("C06.D7-text-nonempty", "Item::Text constructions", len(sites), 1)
+    for ff, i, st, d in sites:
+        e = resolve(ff, d["value"])
+        ls = leaves(e)
+        where = f"{ff.file}:{st.get('line')}"
+        if guarded(ff, i, ls):
+            chk.ok("C06.D7-text-nonempty", "in_step|Item::Text|guarded", sample=f"{where}: Item::Text under !is_empty()")
+            continue
+        from_event = any(l.endswith("Text::text") for l in ls) and not any("find_inline_quantity" in l for l in ls)
+        whole += from_event
+        chk.expect(from_event, "C06.D7-text-nonempty", "in_step|Item::Text|unguarded", where,
+                   f"an Item::Text is pushed without a non-empty test of its value ({full_text(e)[:100]}): the model can hold an empty text item",
+                   sample=f"{where}: Item::Text copies the whole Event::Text payload (non-empty by the parser-side rule)")
+    ps = [f for f in F.find("parser::step::parse_step") if not f.is_closure()]
+    if len(ps) != 1:
+        chk.fail("anchor-missing", "parse_step", "", "anchor-missing: parser::step::parse_step not found")
+        return
+    evs = aggregates(F, ps[0].key, "parser::Event", "Text")
+    chk.floor("C06.D7-text-nonempty", "Event::Text constructions in parse_step", len(evs), 1)
+    for ff, i, st, d in evs:
+        e = resolve(ff, list(d.values())[0])
+        where = f"{ff.file}:{st.get('line')}"
+        ok = guarded(ff, i, leaves(e), need_call="BlockParser::text")
+        chk.expect(ok, "C06.D7-text-nonempty", "parse_step|Event::Text", where,
+                   "the step parser emits Event::Text without the non-empty outcome of an emptiness test of that text: a comment-only run "
+                   "between components becomes an empty text item",
+                   sample=f"{where}: Event::Text emitted under !text.fragments().is_empty()")
+
+
+def _sfx(k, x):
+    from c03 import _suffix
+    return _suffix(k, x)
 
 
 def d1_index(chk, F):
@@ -153,6 +210,13 @@ def d3_refs(chk, F):
         chk.expect(from_search, "C06.D3-reference", "resolve_reference|set_reference arg", rr.where(b),
                    f"set_reference must receive the index found by the same-name search; it receives {full_text(e)[:140]}",
                    sample=f"{rr.where(b)}: set_reference({full_text(e)[:70]})")
+    # (a') a component made a reference also gets Modifiers::REF: later same-name searches skip REF components only,
+    #      so a reference without REF would be picked as a "definition" (reference == REF modifier clause)
+    from c03 import check_requirement
+    ok, why = check_requirement(F, rr, None, "paired:RefComponent::set_reference|BitOrAssign for parser::model::Modifiers>::bitor_assign,Modifiers>::insert,Modifiers>::set|Modifiers::REF")
+    chk.expect(ok, "C06.D3-ref-modifier", "resolve_reference|set_reference+REF", f"{rr.file}:{rr.line}",
+               "a component is turned into a reference without receiving Modifiers::REF: " + why,
+               sample=f"{rr.file}:{rr.line}: every set_reference(new, ..) is accompanied by `*new.modifiers_mut() |= Modifiers::REF`")
     # the search: rposition over C::all(&self.content) with a predicate excluding Modifiers::REF
     rp = region_calls_to(F, region, "Iterator>::rposition") + region_calls_to(F, region, "Iterator::rposition")
     chk.floor("C06.D3-reference", "rposition search", len(rp), 1, f"{rr.file}:{rr.line}")
@@ -309,13 +373,13 @@ def d5_sections(chk, F):
                    f"content.sections receives {full_text(e)[:80]} instead of the current section", sample=f"{ff.where(b)}: pushes self.current_section")
 
 
-def d6_intermediate(chk, F):
+def d6_intermediate(chk, F, rule="C06.D6-intermediate"):
     f = F.funcs.get(R + "resolve_intermediate_ref")
     if f is None:
         chk.fail("anchor-missing", "resolve_intermediate_ref", "", "anchor-missing: resolve_intermediate_ref not found")
         return
     refs = calls_to(f, "IngredientRelation::reference")
-    chk.floor("C06.D6-intermediate", "reference constructions", len(refs), 4, f"{f.file}:{f.line}")
+    chk.floor(rule, "reference constructions", len(refs), 4, f"{f.file}:{f.line}")
     for b, t in refs:
         kind = full_text(arg_expr(f, t, 1))
         e = arg_expr(f, t, 0)
@@ -328,7 +392,7 @@ def d6_intermediate(chk, F):
             clos = [n[2] for n in walk(e) if n[0] == "agg" and n[1] == "closure"]
             filt = any(any((callee_key(ct) or "").endswith("Content::is_step") for _, ct in F.funcs[c].calls()) for c in clos if c in F.funcs)
             enum = any(l.endswith("Iterator::enumerate") for l in ls)
-            chk.expect(has_nth and over_section and filt and enum, "C06.D6-intermediate", f"step-ref@{'back' if 'nth_back' in txt else 'nth'}", where,
+            chk.expect(has_nth and over_section and filt and enum, rule, f"step-ref@{'back' if 'nth_back' in txt else 'nth'}", where,
                        "a step reference must take the n-th element of the is_step-filtered enumeration of self.current_section.content "
                        f"(nth={has_nth}, current section={over_section}, is_step filter={filt}, enumerate={enum})",
                        sample=f"{where}: index from enumerate().filter_map(is_step).nth over current_section.content")
@@ -346,7 +410,7 @@ def d6_intermediate(chk, F):
                         for edge in te + fe:
                             if f.edge_dominates(edge, b):
                                 ok = True
-            chk.expect(ok, "C06.D6-intermediate", f"section-ref@{'relative' if 'saturating_sub' in txt else 'number'}", where,
+            chk.expect(ok, rule, f"section-ref@{'relative' if 'saturating_sub' in txt else 'number'}", where,
                        "a section reference is built without a dominating bounds test against self.content.sections.len()",
                        sample=f"{where}: dominated by a comparison with content.sections.len()")
     # val - 1 after val == 0 return: covered by C03.D2 table; here: every Sub on u32 is dominated by the non-zero edge
@@ -361,5 +425,5 @@ def d6_intermediate(chk, F):
             if any(f.edge_dominates(e_, i) for e_ in fe):
                 good = True
         ok = ok and good
-    chk.expect(ok, "C06.D6-intermediate", "val-1 after val==0", f"{f.file}:{f.line}",
+    chk.expect(ok, rule, "val-1 after val==0", f"{f.file}:{f.line}",
                "`val - 1` is computed on a path where val == 0 was not excluded", sample=f"{len(subs)} `val - 1` site(s) dominated by the val != 0 outcome")
